@@ -78,6 +78,9 @@ CFGS = {
     'clang+builtin': ('clang++', UB_CLANG + ['-D%s_OVERFLOW_PATH=1' % GUARD]),
     'gxx+builtin': ('g++', UB_GXX + ['-D%s_OVERFLOW_PATH=1' % GUARD]),
     'clang+portable': ('clang++', UB_CLANG + ['-D%s_OVERFLOW_PATH=2' % GUARD]),
+    # libFuzzer + ASan + UBSan(trap) builds of the same site TUs (engine: harness/fuzz_engine.cpp)
+    'fuzz': ('clang++', ['-fsanitize=fuzzer-no-link,address,undefined,float-cast-overflow,float-divide-by-zero', '-fno-sanitize=vptr,function',
+                         '-fsanitize-trap=undefined,float-cast-overflow,float-divide-by-zero', '-DVF_FUZZ_HEAP']),
     # no UB instrumentation (for tests where the sanitizer itself would change floating-point results etc.)
     'gxx-plain': ('g++', []),
     # diagnostic builds (replay): reports instead of traps
@@ -112,6 +115,19 @@ def engine_obj():
             raise HarnessError('engine compile failed:\n' + r.stdout[-4000:])
         os.replace(obj + '.tmp', obj)
         log('[build] engine.o %.1fs' % (time.time() - t))
+    return obj
+
+
+def fuzz_engine_obj():
+    os.makedirs(BUILD, exist_ok=True)
+    src = os.path.join(HARNESS, 'fuzz_engine.cpp')
+    key = sha(open(src).read(), open(os.path.join(HARNESS, 'core.h')).read())
+    obj = os.path.join(BUILD, 'fuzz-engine-%s.o' % key)
+    if not os.path.exists(obj):
+        r = run(['clang++', '-std=gnu++20', '-O1', '-g0', '-w', '-I' + HARNESS, '-fsanitize=fuzzer-no-link,address', '-c', src, '-o', obj + '.tmp'])
+        if r.returncode != 0:
+            raise HarnessError('fuzz engine compile failed:\n' + r.stdout[-4000:])
+        os.replace(obj + '.tmp', obj)
     return obj
 
 
@@ -175,13 +191,16 @@ def build_units(units):
             if obj:
                 objs[u.name].append(obj)
     for u in units:
-        key = sha(*(objs[u.name] + [eng, u.cfg]))
+        key = sha(*(objs[u.name] + [fuzz_engine_obj() if u.cfg == 'fuzz' else eng, u.cfg]))
         binp = os.path.join(BUILD, 'bin', '%s-%s' % (u.name, key))
         if not os.path.exists(binp):
             os.makedirs(os.path.dirname(binp), exist_ok=True)
             cc = CFGS[u.cfg][0]
             link_flags = [f for f in CFGS[u.cfg][1] if f.startswith('-fsanitize')]
-            r = run([cc] + [o for o in objs[u.name] if o] + [eng] + link_flags + LIBS + ['-o', binp + '.tmp'])
+            if u.cfg == 'fuzz':
+                r = run([cc] + [o for o in objs[u.name] if o] + [fuzz_engine_obj(), '-fsanitize=fuzzer,address,undefined'] + [l for l in LIBS if 'rapidcheck' not in l] + ['-o', binp + '.tmp'])
+            else:
+                r = run([cc] + [o for o in objs[u.name] if o] + [eng] + link_flags + LIBS + ['-o', binp + '.tmp'])
             if r.returncode != 0:
                 raise HarnessError('link failed for %s:\n%s' % (u.name, r.stdout[-3000:]))
             os.replace(binp + '.tmp', binp)
@@ -286,6 +305,61 @@ def run_engine(u, mode, out, known_tsv, seed, extra):
     j['_wall'] = dt
     j['_binary'] = u.binary
     return j
+
+
+def run_fuzz(u, ctx, runs, workers=4, only=None, max_len=514):
+    """One libFuzzer campaign per worker on unit u (cfg 'fuzz'); returns an extra-result dict (see check())."""
+    prop = u.name.split('-')[0]
+    res = dict(name=u.name, cfg='fuzz', binary=u.binary, evaluations=0, distinct_nontrivial=0, labels={}, excluded={}, samples=[], failures=[],
+               note='libFuzzer -runs=%d x %d workers, ASan + UBSan(trap), structure-aware decode of (site, words)' % (runs, workers))
+    seed_corpus = os.path.join(ROOT, 'corpus', prop, 'fuzz')
+
+    def one(k):
+        wd = os.path.join(ctx['outdir'], 'fuzz-%s-%d' % (u.name, k))
+        os.makedirs(os.path.join(wd, 'corpus'))
+        env = dict(os.environ, VERIF_FUZZ_OUT=wd, VERIF_KNOWN=ctx['known_tsv'], ASAN_OPTIONS='detect_leaks=0:abort_on_error=1:symbolize=0')
+        if only:
+            env['VERIF_FUZZ_ONLY'] = only
+        if u.tick_limit:
+            env['VERIF_TICK_LIMIT'] = str(u.tick_limit)
+        seed = (ctx['seed'] * 1000003 + k * 7919 + 1) % (2 ** 31 - 1) or 1
+        cmd = [u.binary, '-runs=%d' % runs, '-seed=%d' % seed, '-max_len=%d' % max_len, '-artifact_prefix=' + wd + '/', '-print_final_stats=0',
+               '-timeout=60', os.path.join(wd, 'corpus')]
+        if os.path.isdir(seed_corpus):
+            cmd.append(seed_corpus)
+        r = subprocess.run(cmd, stdout=subprocess.PIPE, stderr=subprocess.STDOUT, text=True, errors='replace', env=env)
+        return wd, r
+
+    with cf.ThreadPoolExecutor(workers) as ex:
+        outs = list(ex.map(one, range(workers)))
+    for wd, r in outs:
+        sp = os.path.join(wd, 'stats.json')
+        if os.path.exists(sp):
+            st = json.load(open(sp))
+            res['evaluations'] += st['executions']
+            res['distinct_nontrivial'] += st['distinct_nontrivial']
+            for k, v in st['labels'].items():
+                res['labels'][k] = res['labels'].get(k, 0) + v
+            for k, v in st['excluded_by_id'].items():
+                e = res['excluded'].setdefault(k, dict(hits=0, example='libFuzzer'))
+                e['hits'] += v
+            res['samples'] += [dict(site='fuzz', cfg='fuzz', case=x) for x in st['samples'][:2]]
+        fails = sorted(f for f in os.listdir(wd) if f.startswith('fail-'))
+        crashes = sorted(f for f in os.listdir(wd) if f.startswith('crash-') or f.startswith('leak-'))
+        for f in fails:
+            j = json.load(open(os.path.join(wd, f)))
+            res['failures'].append(dict(site=j['site'], **{'class': j['class']}, msg=j['msg'], desc=j['desc'], words=j['words']))
+        if crashes and not fails:
+            # a sanitizer report (memory error): the saved input is the reproducible unit
+            art = os.path.join(ROOT, 'evidence', 'replay', '%s-fuzz-%s' % (prop, crashes[0]))
+            os.makedirs(os.path.dirname(art), exist_ok=True)
+            shutil.copy(os.path.join(wd, crashes[0]), art)
+            tail = [l for l in r.stdout.splitlines() if 'ERROR' in l or 'SUMMARY' in l][:3]
+            reproduced = sum(subprocess.run([u.binary, art], stdout=subprocess.DEVNULL, stderr=subprocess.DEVNULL,
+                                            env=dict(os.environ, VERIF_KNOWN=ctx['known_tsv'], VERIF_FUZZ_OUT=wd, ASAN_OPTIONS='detect_leaks=0')).returncode != 0 for _ in range(3))
+            res['failures'].append(dict(site='fuzz:' + u.name, **{'class': 'sanitizer-report'}, msg=' | '.join(tail)[:600], desc='libFuzzer artifact ' + crashes[0],
+                                        file=art, confirmed=reproduced == 3))
+    return res
 
 
 def replay_once(binary, path, known_tsv):
@@ -402,7 +476,13 @@ def check(prop, tier, seed):
             e['example'] = e['example'] or v.get('example', '')
         ev['samples'] += er.get('samples', [])[:6]
         for f in er.get('failures', []):
-            fail_rows.append((dict(_cfg=er.get('cfg', ''), _binary=er.get('binary', ''), _unit=er.get('name', '')), f['site'], f))
+            bin_for = ''
+            if 'words' in f:
+                for uu in units:
+                    if uu.cfg != 'fuzz' and uu.binary and f['site'] in run([uu.binary, 'list']).stdout:
+                        bin_for, cfg_for = uu.binary, uu.cfg
+                        break
+            fail_rows.append((dict(_cfg=(cfg_for if bin_for else er.get('cfg', '')), _binary=bin_for, _unit=er.get('name', '')), f['site'], f))
         ev.setdefault('engines', []).append({k: v for k, v in er.items() if k in ('name', 'cfg', 'evaluations', 'distinct_nontrivial', 'note', 'exhaustive')})
 
     # 4. unlisted failures -> replay files, confirmed 3x
@@ -439,7 +519,7 @@ def check(prop, tier, seed):
     allow = load_allow(prop)
     for u in units:
         for r in u.skipped:
-            key = u.cfg.split('+')[0].split('-')[0] + ':' + r
+            key = ('gxx' if CFGS[u.cfg][0] == 'g++' else 'clang') + ':' + r
             if key in allow or r in allow:
                 continue
             rep = dict(property=prop, site=r, cfg=u.cfg, unit=u.name, **{'class': 'instantiation-does-not-compile'},
@@ -535,6 +615,18 @@ def main():
         prop, path = a[1], a[2]
         j = json.load(open(path))
         mod = importlib.import_module('vgen.' + prop)
+        if 'file' in j:  # libFuzzer artifact: the saved input is the reproducible unit
+            plan = mod.plan(j.get('tier', 'quick'), seed)
+            fus = [u for u in plan['units'] if u.cfg == 'fuzz']
+            build_units(fus)
+            known_tsv = write_known_tsv(prop, load_known(prop))
+            for u in fus:
+                r = subprocess.run([u.binary, j['file']], stdout=subprocess.PIPE, stderr=subprocess.STDOUT, text=True, errors='replace',
+                                   env=dict(os.environ, VERIF_KNOWN=known_tsv, VERIF_FUZZ_OUT=BUILD, ASAN_OPTIONS='detect_leaks=0'))
+                print(r.stdout[-3000:])
+                print('REPLAY %s' % ('FAIL' if r.returncode else 'PASS'))
+                return 1 if r.returncode else 0
+            return 2
         if 'registration' in j:
             src = '#include "%s"\nstatic void vf_reg()\n{\n    %s;\n}\nVF_REGISTER(vf_reg)\n' % (j['header'], j['registration'])
             fn = os.path.join(BUILD, 'replay-reg.cpp')
@@ -569,7 +661,7 @@ def main():
             build_units(plan['units'])
             for u in plan['units']:
                 for r in u.skipped:
-                    keys.add(u.cfg.split('+')[0].split('-')[0] + ':' + r)
+                    keys.add(('gxx' if CFGS[u.cfg][0] == 'g++' else 'clang') + ':' + r)
         p = os.path.join(ROOT, 'uncompilable_allow.json')
         j = json.load(open(p)) if os.path.exists(p) else {}
         j[prop] = sorted(keys)
